@@ -1,9 +1,36 @@
 (** C19 — cache directories stay well-formed.  Property theorems only. *)
-From Akita Require Import Lib.Base C19.Model C19.Proofs.
+From Akita Require Import Lib.Base C19.Model C19.Proofs C19.Proofs2.
 From Coq Require Import Permutation.
 Local Open Scope Z_scope.
 
-(** DirectoryVisit keeps the recency list a list of every way exactly once. *)
+(** DirectoryReset yields a well-formed directory (every geometry). *)
+Theorem c19_reset_wf : forall ns ways bs, (0 < bs)%N -> dir_wf ns ways bs (reset ns ways bs) = true.
+Proof. intros. apply dir_wf_iff. apply reset_wf. assumption. Qed.
+Print Assumptions c19_reset_wf.
+
+(** [dir_wf] means: the right number of sets; each set has [ways] blocks and
+    lists each way exactly once in its recency order; reader counts are not
+    negative; a valid block holds a line-aligned tag whose home set is the set
+    it sits in; no two valid blocks of a set — hence of the directory — hold
+    the same (PID, line). *)
+Theorem c19_dir_wf_meaning : forall ns ways bs d, dir_wf ns ways bs d = true ->
+  length d = N.to_nat ns /\
+  forall sid s, zth d sid = Some s ->
+    length (s_blocks s) = N.to_nat ways /\
+    Permutation (s_lru s) (map Z.of_nat (seq 0 (N.to_nat ways))) /\
+    (forall b, In b (s_blocks s) -> 0 <= b_rc b /\
+       (b_valid b = true -> set_id (b_tag b) bs ns = Some sid /\ (b_tag b mod bs = 0)%N)) /\
+    (forall i j bi bj, i <> j -> nth_error (s_blocks s) i = Some bi -> nth_error (s_blocks s) j = Some bj ->
+       b_valid bi = true -> b_valid bj = true -> ~ (b_tag bi = b_tag bj /\ b_pid bi = b_pid bj)).
+Proof.
+  intros ns ways bs d H. apply dir_wf_iff in H. destruct H as [HL HS]. split; [exact HL|].
+  intros sid s Hs. destruct (HS _ _ Hs) as [H1 [H2 [H3 H4]]]. split; [exact H1|].
+  split; [apply lru_ok_perm; exact H2|]. split; [exact H3|exact H4].
+Qed.
+Print Assumptions c19_dir_wf_meaning.
+
+(** DirectoryVisit keeps the recency list a list of every way exactly once,
+    makes the visited way most recent and keeps the order of the others. *)
 Theorem c19_visit_perm : forall ways lru w,
   lru_ok ways lru = true -> 0 <= w < Z.of_nat ways ->
   lru_ok ways (remove_first w lru ++ [w]) = true /\
@@ -17,6 +44,113 @@ Proof.
 Qed.
 Print Assumptions c19_visit_perm.
 
-Example c19_visit_nonvacuous :
+(** DirectoryFindVictim: the returned way is in the home set of the address;
+    it is the least recently used way that is neither locked nor read whenever
+    such a way exists; otherwise every listed way is busy, the result is
+    LRUOrder[0], and the guard used by every caller (IsLocked || ReadCount > 0)
+    refuses it (the transaction stalls). *)
+Theorem c19_victim_not_busy : forall d ns bs addr sid w,
+  find_victim d ns bs addr = Some (sid, w) ->
+  set_id addr bs ns = Some sid /\
+  exists s, zth d sid = Some s /\
+    ((exists b, zth (s_blocks s) w = Some b /\ b_locked b = false /\ b_rc b = 0 /\
+        exists pre post, s_lru s = pre ++ w :: post /\
+          forall v, In v pre -> exists bv, zth (s_blocks s) v = Some bv /\ busy bv = true)
+     \/
+     ((forall v, In v (s_lru s) -> exists bv, zth (s_blocks s) v = Some bv /\ busy bv = true) /\
+      (exists rest, s_lru s = w :: rest) /\
+      forall b, zth (s_blocks s) w = Some b -> 0 <= b_rc b -> caller_stalls b = true)).
+Proof.
+  intros d ns bs addr sid w H. destruct (find_victim_spec _ _ _ _ _ _ H) as [H1 [s [Hs Hc]]].
+  split; [exact H1|]. exists s. split; [exact Hs|]. destruct Hc as [[b [Hb [Hbusy Hpre]]]|[Hall [rest Hrest]]].
+  - left. exists b. split; [exact Hb|]. unfold busy in Hbusy. apply orb_false_iff in Hbusy.
+    destruct Hbusy as [Hl Hr]. apply negb_false_iff in Hr. split; [exact Hl|]. split; [lia|exact Hpre].
+  - right. split; [exact Hall|]. split; [eauto|]. intros b Hb Hrc.
+    destruct (Hall w) as [bv [Hbv Hbusy]]; [rewrite Hrest; left; reflexivity|].
+    assert (bv = b) by congruence. subst bv. rewrite <- busy_caller by exact Hrc. exact Hbusy.
+Qed.
+Print Assumptions c19_victim_not_busy.
+
+(** if some listed way is free, the victim is free *)
+Theorem c19_victim_free_when_possible : forall d ns bs addr sid w s,
+  find_victim d ns bs addr = Some (sid, w) -> zth d sid = Some s ->
+  (exists v bv, In v (s_lru s) /\ zth (s_blocks s) v = Some bv /\ busy bv = false) ->
+  exists b, zth (s_blocks s) w = Some b /\ busy b = false.
+Proof.
+  intros d ns bs addr sid w s H Hs [v [bv [Hin [Hbv Hfree]]]].
+  destruct (find_victim_spec _ _ _ _ _ _ H) as [_ [s' [Hs' Hc]]]. assert (s' = s) by congruence. subst s'.
+  destruct Hc as [[b [Hb [Hbusy _]]]|[Hall _]]; [eauto|].
+  destruct (Hall v Hin) as [bv' [Hbv' Hb']]. assert (bv' = bv) by congruence. subst. congruence.
+Qed.
+Print Assumptions c19_victim_free_when_possible.
+
+(** DirectoryLookup is sound; in a well-formed directory it is also complete
+    over the whole directory and the hit is the only copy of the line. *)
+Theorem c19_lookup_sound : forall d ns bs pid addr sid w found,
+  lookup d ns bs pid addr = Some (sid, w, found) ->
+  set_id addr bs ns = Some sid /\
+  exists s, zth d sid = Some s /\
+    if found
+    then exists b, zth (s_blocks s) w = Some b /\ b_valid b = true /\ b_tag b = addr /\ b_pid b = pid
+    else w = -1 /\ forall b, In b (s_blocks s) -> block_matches pid addr b = false.
+Proof. exact lookup_sound. Qed.
+Print Assumptions c19_lookup_sound.
+
+Theorem c19_lookup_complete_unique : forall ns ways bs d pid addr sid w found,
+  dir_wf ns ways bs d = true -> lookup d ns bs pid addr = Some (sid, w, found) ->
+  forall sid' w' b, get_block d sid' w' = Some b ->
+    b_valid b = true -> b_tag b = addr -> b_pid b = pid ->
+    found = true /\ sid' = sid /\ w' = w.
+Proof.
+  intros ns ways bs d pid addr sid w found Hwf Hl sid' w' b Hb V T P.
+  apply (lookup_complete ns ways bs d pid addr sid w found (proj1 (dir_wf_iff _ _ _ _) Hwf) Hl sid' w' b Hb).
+  apply block_matches_iff. auto.
+Qed.
+Print Assumptions c19_lookup_complete_unique.
+
+(** the operations of the caches as they are after the fix (the write-through
+    full-line install that kept the victim's PID is excluded) *)
+Definition current_op (o : op) : bool :=
+  match o with OInstallKeepPid _ _ => false | _ => true end.
+
+(** Every history of guarded directory-level operations of the two caches
+    (install on a miss into the FindVictim way, write/read hits, reader
+    release, bank-stage completion, write-evict, Invalidate with any filter,
+    flush clean-marking, Reset) keeps the directory well-formed. *)
+Theorem c19_ops_preserve_wf : forall ns ways bs ops d, (0 < bs)%N ->
+  forallb current_op ops = true ->
+  dir_wf ns ways bs d = true -> dir_wf ns ways bs (run ns ways bs d ops) = true.
+Proof.
+  intros ns ways bs ops. induction ops as [|o ops IH]; intros d Hbs Hops Hwf; [exact Hwf|].
+  cbn [forallb] in Hops. apply andb_true_iff in Hops. destruct Hops as [Ho Hops].
+  unfold run. cbn [fold_left]. apply IH; auto. apply dir_wf_iff. apply step_preserves_wf; auto.
+  - destruct o; try discriminate; cbn in Ho; discriminate.
+  - apply dir_wf_iff. exact Hwf.
+Qed.
+Print Assumptions c19_ops_preserve_wf.
+
+(** from Reset, every reachable state of the operation automaton is well-formed *)
+Corollary c19_reachable_wf : forall ns ways bs ops, (0 < bs)%N ->
+  forallb current_op ops = true ->
+  dir_wf ns ways bs (run ns ways bs (reset ns ways bs) ops) = true.
+Proof. intros. apply c19_ops_preserve_wf; auto. apply c19_reset_wf. assumption. Qed.
+Print Assumptions c19_reachable_wf.
+
+(** regression: the pre-fix write-through full-line install (tag set, PID of
+    the victim kept) produces two valid blocks with the same (PID, line) *)
+Theorem c19_install_keep_pid_old_refuted :
+  exists d, dir_wf 1 2 64 d = true /\
+            dir_wf 1 2 64 (step 1 2 64 d (OInstallKeepPid 0 2)) = false.
+Proof.
+  exists [S [B 0 0 0 0 0 true false 0 false None; B 0 0 1 0 64 false false 0 false None] [1; 0]].
+  vm_compute. split; reflexivity.
+Qed.
+Print Assumptions c19_install_keep_pid_old_refuted.
+
+Example c19_nonvacuous :
+  let d0 := reset 2 2 64 in
+  let d1 := run 2 2 64 d0 [OInstall 1 0 false; OFinishFill 0 0; OReadHit 1 0; OInstall 1 128 false;
+                           OWriteHit 1 0; OReadDone 0 0; OWriteHit 1 0; OFinishWrite 0 0; OInvalidate [130%N] 1] in
+  dir_wf 2 2 64 d1 = true /\ d1 <> d0 /\
   lru_ok 4 [2; 0; 3; 1] = true /\ remove_first 0 [2; 0; 3; 1] ++ [0] = [2; 3; 1; 0].
-Proof. vm_compute. split; reflexivity. Qed.
+Proof. vm_compute. repeat split; try reflexivity. discriminate. Qed.
